@@ -7,10 +7,13 @@ encoded by the REFERENCE encoder (pv/genref.py); the code emitted for R must dec
 (known fields with unchanged wire type kept, everything else ignored, defaults filled, enum numbers kept),
 leave exactly the trailing bytes, and fail -- with an error, never a panic or a wrong value -- exactly when
 `view` says a required field is absent or a union carries no known variant / more than one."""
-from .. import gengen, genref, genrun, genevo
+from .. import gengen, genref, genrun, genevo, gencheck
 from ..gencheck import have_property_file, run_check
 
 PROP = 'C08'
+# Properties/C08.v (C08_skip_is_runtime_skip) rests on the main family's skip theorem
+if 'Proofs/SkipP.vo' not in gencheck.BASE_TARGETS:
+    gencheck.BASE_TARGETS.append('Proofs/SkipP.vo')
 LEVEL = 'proof' if have_property_file(PROP) else 'translation_validation'
 
 
